@@ -19,6 +19,7 @@ use crate::annotationstore::AnnotationStore;
 use crate::api::*;
 use crate::error::StamError;
 use crate::store::*;
+use crate::types::Handle;
 use crate::AnnotationDataSet;
 
 use base16ct;
@@ -138,6 +139,16 @@ impl AnnotationStore {
                 // we need to update the reverse index manually:
                 self.dataset_data_annotation_map
                     .insert(set_handle, data_handle, handle);
+            }
+            // annotations may have been protected in an earlier call already, keep the reverse index in chronological order
+            if let Some(map) = self
+                .dataset_data_annotation_map
+                .data
+                .get_mut(set_handle.as_usize())
+            {
+                for annotations in map.data.iter_mut() {
+                    annotations.sort_unstable();
+                }
             }
         } else {
             panic!("Set must exist");
